@@ -46,7 +46,7 @@ def _closure_follow(lib, sup, tr):
     return tr
 
 
-def _plain(tr, allow=PLAIN_STEPS + ("closure_capture",)):
+def _plain(tr, allow=PLAIN_STEPS + ("closure_capture", "agg_field")):
     return [s for s in tr.steps if s[0] not in allow]
 
 
